@@ -11,10 +11,10 @@ from .c15_programs import (COVER, ERRORS, NONFINITE, random_program, literal_edg
 
 TRUSTED = [
     "Coq 8.16.1 kernel (coqc, vm_compute); no axioms: every theorem is 'Closed under the global context'",
-    "theorems about arbitrary documents (c15_de_wt, c15_reserialise_stable, c15_staged_eq_direct_docs) have no side condition on the document; that the model's `de` is serde's on such documents (repeated key: error for a struct field, last wins in a map, ignored when unknown; integer token read as float up to 2^53; absent / null optional fields) is validated on edited documents every run, not proved; struct-from-array included; integers beyond 2^53 in a float position and pre-release / build metadata in a VersionReq text are outside the model",
+    "theorems about arbitrary documents (c15_de_wt, c15_reserialise_stable, c15_staged_eq_direct_docs) have no side condition on the document; that the model's `de` is serde's on such documents (repeated key: error for a struct field, last wins in a map, ignored when unknown; integer token read as the nearest float; absent / null optional fields) is validated on edited documents every run, not proved; struct-from-array, integers of any size in a float position (C08's FloatRyu model: nearest binary64, shortest digits) and pre-release / build identifiers of a VersionReq included",
     "translators vplib/translate/gen_serde.py (type/attribute scanner over pr/*.rs, lr.rs, span.rs, generic.rs, ir/rq/*.rs, ir/generic.rs, ir/pl/extra.rs; fail closed on unmodelled attributes / type constructors; shape check of the hand-written Span and Ident impls) and gen_entry.py (call chains of lib.rs)",
     "modelled, not verified: coq/Model/Serde.v re-states serde-derive's rules (externally tagged enums, flatten of an enum through FlatMapSerializer/FlatMapDeserializer, skip_serializing_if, default, missing Option field = None); validated on every run against real serde on the implementation's own JSON and on descriptor-generated values",
-    "serde_json's text layer (escaping, number printing and parsing: a finite f64 survives print/parse; ryu); that Model/VersionReq.v is semver 1.0.27's from_str / Display (validated every run on ~500 requirement texts against the real crate, python twin and Coq; pre-release / build metadata not modelled)",
+    "serde_json's text layer (escaping, number printing and parsing: a finite f64 survives print/parse; ryu); that Model/VersionReq.v is semver 1.0.27's from_str / Display (validated every run on ~500 requirement texts against the real crate, python twin and Coq); C08's Model/FloatRyu.v (round64, shortest) for integers beyond 2^53 read as floats",
     "the stage functions (parser, resolver, SQL back end) are abstract in staged_eq_direct; that they are functions of their argument alone is C11",
     "python mirror vplib/props/c15_serde.py of the Coq model (cross-checked against Eval vm_compute on a sample each run)",
     "correspondence harness (harness/src/c15.rs, main.rs) and python comparison",
@@ -121,6 +121,13 @@ def perturb(j, rng):
     paths = list(_paths(j))
     objs = [p for p in paths if isinstance(_get(j, p), tuple) and _get(j, p)[1]]
     arrs = [p for p in paths if isinstance(_get(j, p), list)]
+    floats = [p for p in paths if isinstance(_get(j, p), float)]
+    if floats and rng.random() < 0.15:
+        # an integer token where the document had a float: serde reads it as the nearest binary64
+        z = rng.choice([0, 7, -7, 2 ** 53, 2 ** 53 + 1, 2 ** 53 + 3, -(2 ** 53) - 1, 9999999999999999, 10 ** 16, 12345678901234567, 2 ** 63, 2 ** 64 - 1, 2 ** 64,
+                        -(2 ** 63) - 1, 123456789012345678901234567890, 10 ** 308, 10 ** 309, 2 ** 1024 - 2 ** 970 - 1, 2 ** 1024 - 2 ** 970,
+                        rng.randrange(2 ** 53, 2 ** 64), -rng.randrange(2 ** 53, 2 ** 63), rng.randrange(10 ** 20, 10 ** 40)])
+        return _set(j, rng.choice(floats), z), "int-for-float"
     vers = [p for p in objs if any(k == "version" for k, _ in _get(j, p)[1])]
     if vers and rng.random() < 0.12:
         # the text of a semver requirement, as a client would write it (spaces, bare versions, wildcards, nonsense)
@@ -429,10 +436,6 @@ def run():
         edited_small = []
         for kind, v, j in metas[:ck.n(700, 3000)]:
             j2, how = perturb(j, ck.rng)
-            if any(isinstance(_get(j2, p), tuple) and any(k == "version" and isinstance(x, str) and ("-" in x or "+" in x) for k, x in _get(j2, p)[1])
-                   for p in _paths(j2)):
-                # Model/VersionReq.v does not model pre-release / build metadata after the patch number
-                ck.stat("edited-documents", "out-of-model:VersionReq pre-release/build"); continue
             root = env.roots[kind]
             why = ""
             try:
@@ -512,6 +515,45 @@ def run():
             else:
                 ck.stat("versionreq-coq", "agree")
 
+    # ------------------------------------------------------------------ 3d. integer tokens where a float is expected (int_float_repr)
+    # real serde_json (`z as f64`, printed by ryu) against the python mirror (value) and the Coq text (C08's round64 + shortest)
+    zs = [0, 1, -1, 7, 2 ** 53 - 1, 2 ** 53, 2 ** 53 + 1, 2 ** 53 + 2, 2 ** 53 + 3, -(2 ** 53) - 1, 9999999999999998, 9999999999999999, 10 ** 16, 10 ** 16 + 1,
+          12345678901234567, 2 ** 63 - 1, 2 ** 63, 2 ** 64 - 1, 2 ** 64, 2 ** 64 + 2 ** 11, 2 ** 64 + 2 ** 11 + 1, -(2 ** 63), -(2 ** 63) - 1, 10 ** 22, 10 ** 23,
+          123456789012345678901234567890, 10 ** 308, 2 ** 1024 - 2 ** 970 - 1, 2 ** 1024 - 2 ** 970, 10 ** 309]
+    zs += [ck.rng.randrange(2 ** 53, 2 ** 64) * ck.rng.choice([1, -1]) for _ in range(ck.n(20, 200))] + [ck.rng.randrange(10 ** 19, 10 ** 60) for _ in range(ck.n(10, 100))]
+    zs = list(dict.fromkeys(zs))
+    zdocs = ['{"name":"P","stmts":[{"VarDef":{"kind":"Main","name":"m","value":{"Literal":{"Float":%d}},"ty":null}}]}' % z for z in zs]
+    zreal = {}
+    for z, a in zip(zs, harness("c15_reser", [{"kind": "pl", "json": d} for d in zdocs])):
+        ck.count("int-as-float", str(z))
+        real = None
+        if "ok" in a:
+            mm = re.search(r'"Float":([^}]+)}', a["ok"])
+            real = mm.group(1) if mm else "?"
+        zreal[z] = real
+        try:
+            mine = float(z)
+        except OverflowError:
+            mine = None
+        if (mine is None) != (real is None) or (mine is not None and float(real) != mine):
+            ck.violation("an integer token in a float position: the model's value and serde_json's differ", {"kind": "int-as-float", "int": str(z), "got": {"model": repr(mine), "serde_json": real if real is not None else a}})
+        else:
+            ck.stat("int-as-float", "same-value" if real is not None else "both-reject(rounds to infinity)")
+    if pr["ok"]:
+        zq = [z for z in zs if abs(z) < 10 ** 40 or z in (10 ** 308, 2 ** 1024 - 2 ** 970 - 1, 2 ** 1024 - 2 ** 970, 10 ** 309)][:ck.n(48, 200)]
+        try:
+            vals = coq_eval(COQ_HEADER, ["(match int_float_repr (%d)%%Z with Some r => (true, r) | None => (false, []) end)" % z for z in zq])
+        except RuntimeError as ex:
+            vals = None
+            ck.violation("Coq evaluation of int_float_repr failed", {"kind": "coq-eval", "error": str(ex)[-800:]})
+        for z, r in zip(zq, vals or []):
+            ck.count("int-as-float-coq", str(z))
+            got = "".join(chr(c) for c in r[1]) if r is not None and r[0] and isinstance(r[1], list) else None
+            if r is None or got != zreal[z]:
+                ck.violation("an integer token in a float position: the Coq text and serde_json's (ryu) text differ", {"kind": "int-as-float", "int": str(z), "got": {"coq": repr(r)[:200], "serde_json": zreal[z]}})
+            else:
+                ck.stat("int-as-float-coq", "same-text")
+
     # ------------------------------------------------------------------ 4. the Coq definitions themselves on a sample
     if env is not None and small and pr["ok"]:
         nsample = ck.n(96, 400)
@@ -553,7 +595,7 @@ def run():
     if env is not None and not stale and pr["ok"] and edited_small:
         ck.rng.shuffle(edited_small)
         # accepted repeated-key and scalar edits (map last-wins, unknown repeats, integer read as float) are rare: take them first
-        acc = sorted([e for e in edited_small if e[3] is not None], key=lambda e: e[1] not in ("dup-key", "scalar", "obj-to-array"))[:ck.n(24, 100)]
+        acc = sorted([e for e in edited_small if e[3] is not None], key=lambda e: e[1] not in ("dup-key", "scalar", "obj-to-array", "int-for-float", "version-text"))[:ck.n(24, 100)]
         rej = [e for e in edited_small if e[3] is None][:ck.n(24, 100)]
         es = acc + rej
         exprs = ["(match de GenSerde.env GenSerde.%s %s with Some v => (true, v) | None => (false, VNone) end)"
